@@ -44,7 +44,10 @@ def parseOp (j : Json) : J.R (Op Nat Nat) := do
   | some s => pure (.seed s)
   | none =>
     match ← J.fieldOpt j "spawn" J.nat with
-    | some n => pure (.spawn n)
+    | some n =>
+      let bg ← J.fieldD j "bg" J.nat 0
+      let bits ← J.fieldD j "bits" J.nat 64
+      pure (.spawn n ⟨bg, bits⟩)
     | none =>
       match ← J.fieldOpt j "new" J.str with
       | some name =>
@@ -67,6 +70,9 @@ def parseOp (j : Json) : J.R (Op Nat Nat) := do
             if !r.accepts && !arg.isGlob then J.fail s!"component {name} has no rng parameter" else
             pure (.setrng (clsOf i r) k arg)
           | none =>
+            match ← J.fieldOpt j "copy" J.nat with
+            | some k => pure (.copy k)
+            | none =>
             let name ← J.field j "c" J.str
             let arg ← J.field j "rng" parseArg
             let (i, r) ← rowFor name
@@ -166,9 +172,9 @@ def opStatic : J.Op := fun _ => do
   pure <| J.obj [
     ("sites", J.ofList (fun (x : Site) => J.obj [("module", J.ofStr x.module), ("func", J.ofStr x.func),
         ("kind", J.ofStr x.kind), ("what", J.ofStr x.what), ("count", J.ofNat x.count),
-        ("reached", J.ofList J.ofNat x.reached),
+        ("reached", J.ofList J.ofNat x.reached), ("scoped", J.ofBool x.opScope),
         ("covered", J.ofBool (x.covered C08Deps.table C08Static.allow))]) C08Static.sites),
-    ("allow", J.ofList (fun (a : String × String) => J.ofList J.ofStr [a.1, a.2]) C08Static.allow)]
+    ("allow", J.ofList (fun (a : String × String × String) => J.ofList J.ofStr [a.1, a.2.1, a.2.2]) C08Static.allow)]
 
 /-! `c08.prim_run`: the literal model of `seed()` / `spawn()` (Model/Prng `seed`, `spawnGo`) executed on the
     REAL primitives: generator states are digests (strings), the four primitives are finite tables recorded
@@ -185,29 +191,41 @@ def opPrimRun : J.Op := fun j => do
       | [k, v] => do pure (← J.str k, ← J.str v)
       | _ => J.fail "pair expected"
     | _ => J.fail "pair expected"
-  let triple : Json → J.R (String × Nat × String) := fun x => do
+  let quad : Json → J.R (Nat × String × Nat × String) := fun x => do
     match x with
     | .arr a => match a.toList with
-      | [k, v, n] => do pure (← J.str k, ← J.nat v, ← J.str n)
+      | [b, k, v, n] => do pure (← J.nat b, ← J.str k, ← J.nat v, ← J.str n)
+      | _ => J.fail "quadruple expected"
+    | _ => J.fail "quadruple expected"
+  let gtriple : Json → J.R (Nat × String × String) := fun x => do
+    match x with
+    | .arr a => match a.toList with
+      | [b, k, v] => do pure (← J.nat b, ← J.str k, ← J.str v)
       | _ => J.fail "triple expected"
     | _ => J.fail "triple expected"
   let pySeedT ← J.field j "py_seed" (J.list pair)
-  let pyDrawT ← J.field j "py_draw" (J.list triple)
+  let pyDrawT ← J.field j "py_draw" (J.list quad)
   let npSeedT ← J.field j "np_seed" (J.list pair)
-  let genSeedT ← J.field j "gen_seed" (J.list pair)
+  let genSeedT ← J.field j "gen_seed" (J.list gtriple)
   let P : Prim String :=
     { pySeed := fun s => lookup1 pySeedT (toString s),
-      pyDraw := fun x => match pyDrawT.find? (fun p => p.1 == x) with
-        | some p => (p.2.1, p.2.2)
+      pyDraw := fun bits x => match pyDrawT.find? (fun p => p.1 == bits && p.2.1 == x) with
+        | some p => (p.2.2.1, p.2.2.2)
         | none => (0, "?" ++ x),
       npSeed := fun v => lookup1 npSeedT (toString v),
-      genSeed := fun v => lookup1 genSeedT (toString v) }
+      genSeed := fun bg v => match genSeedT.find? (fun p => p.1 == bg && p.2.1 == toString v) with
+        | some p => p.2.2
+        | none => "?" ++ toString v }
   let py0 ← J.field j "py" J.str
   let np0 ← J.field j "np" J.str
   let prog ← J.field j "ops" (J.list (fun o => do
     match ← J.fieldOpt o "seed" J.nat with
     | some s => pure (Op.seed s : Op String Nat)
-    | none => do let n ← J.field o "spawn" J.nat; pure (Op.spawn n)))
+    | none => do
+      let n ← J.field o "spawn" J.nat
+      let bg ← J.fieldD o "bg" J.nat 0
+      let bits ← J.fieldD o "bits" J.nat 64
+      pure (Op.spawn n ⟨bg, bits⟩)))
   let rec go (ops : List (Op String Nat)) (st : St String) (acc : List Json) : List Json :=
     match ops with
     | [] => acc.reverse
